@@ -177,10 +177,52 @@ def rule_guard(facts):
     return r, r3
 
 
+def rule_option_readers(facts):
+    """Options.memlimit is a pure limit: it is read where a window is constructed and handed to it - nowhere else.  A read
+    anywhere else (header parser, decoder core) lets the limit change what is decoded instead of only bounding memory."""
+    r = report.RuleResult("C10.R3b", "Options.memlimit is read only where a window is constructed")
+    n = 0
+    for b in facts.bodies:
+        if b.promoted is not None:
+            continue
+        reads = []
+        for blk in b.blocks:
+            if blk.cleanup:
+                continue
+            places = []
+            for s in blk.stmts:
+                if s.k == "assign":
+                    places += [o.place for o in s.rv.operands() if o.place is not None]
+                    if s.rv.place is not None:
+                        places.append(s.rv.place)
+            if blk.term.k == "switch" and blk.term.discr.place is not None:
+                places.append(blk.term.discr.place)
+            if blk.term.k == "call":
+                places += [a.place for a in blk.term.args if a.place is not None]
+            for pl in places:
+                if any(pr[0] == "field" and pr[2] == "memlimit" and pr[4] and pr[4].endswith("options::Options") and "decode" in pr[4] for pr in pl.proj):
+                    reads.append(blk.idx)
+        if not reads:
+            continue
+        n += 1
+        fn = short(b.name)
+        builds = any((flow.callee(x.term) or "").endswith(("LzCircularBuffer::from_stream", "LzmaDecoder::new", "LzAccumBuffer::from_stream"))
+                     for x in b.calls())
+        derived = fn.endswith(("::clone", "::fmt", "::eq", "::default", "::ne")) or b.kind == "Closure"
+        if builds or derived:
+            r.ok("who-reads", {"fn": fn})
+        else:
+            r.bad("%s|limit-read" % fn, "Options.memlimit is read in %s, which constructs no window: the limit influences decoding itself" % fn,
+                  pat.where(b, reads[0]))
+    r.sites = n
+    r.need("readers of Options.memlimit (found %d)" % n, n >= 2)
+    return r
+
+
 def run(ctx, t0):
     facts = ctx.facts()
     r2, r3 = rule_guard(facts)
-    rules = [rule_plumbing(facts), r2, r3]
+    rules = [rule_plumbing(facts), r2, r3, rule_option_readers(facts)]
     expl = ("Static: provenance of the limit argument at every construction of the window, who-may-grow enumeration of "
             "the buffer with dominance of the limit test and equality of the tested and the grown length, who-reads "
             "enumeration of the limit field.")
